@@ -291,10 +291,10 @@ Example c12_nonvacuous_subscribe :
   /\ step ex_raises ex_acts s (Subscribe [(2, 3); (1, 2); (1, 3); (2, 3)]%N []) =
      (mkst [(1, 2); (2, 2); (2, 3); (1, 3)]%N (lst s) true true,
       snd (step ex_raises ex_acts s (Subscribe [(2, 3); (1, 2); (1, 3); (2, 3)]%N [])))
-  /\ (forall c, In c [(2, 3); (1, 2); (1, 3)]%N ->
-       In c (put_ids true (snd (step ex_raises ex_acts s (Subscribe [(2, 3); (1, 2); (1, 3); (2, 3)]%N [])))))
+  /\ forallb (fun c => mem c (put_ids true (snd (step ex_raises ex_acts s (Subscribe [(2, 3); (1, 2); (1, 3); (2, 3)]%N [])))))
+             [(2, 3); (1, 2); (1, 3)]%N = true
   /\ In (ORet RetDict) (snd (step ex_raises ex_acts s (Subscribe [(2, 3); (1, 2); (1, 3); (2, 3)]%N []))).
-Proof. vm_compute. repeat split; try reflexivity; intros c H; tauto. Qed.
+Proof. vm_compute. repeat split; try reflexivity. repeat (first [left; reflexivity | right]). Qed.
 
 Print Assumptions state_is_sets.
 Print Assumptions resubscribe_all.
